@@ -80,6 +80,7 @@ known("C20","invalid-instrumented-module else found outside of an `if` block [*s
 
 fixed("C22","8aef522","silently-lost * via function-modifier inject_at","special-mode code injected through FunctionModifier::inject_at / add_instr_at was accepted and never resolved (has_special_instr not set)")
 fixed("C22","b1c6560","silently-lost empty-block-alt on * via *","empty_block_alt on a non-block instruction was accepted and silently ignored")
+fixed("C17","8591a43","event func-exit * beside-removed-construct extra","a function-exit probe fired twice per activation when a return / unreachable / throw of the function sat inside a construct removed through a block alternate: the copy of the exit body placed in front of the removed instruction stayed and ran in passing (witness: main = [Block [Ret]], func-exit probe, empty block alternate on the block)")
 known("C22","silently-lost semantic-after on br->fn-label via *","a semantic-after injection on an unconditional br whose only target is the function body label is accepted by every API path and absent from the encoded function (same cause as the C20 finding: its body is scheduled after the final end, where after-code is dropped)",
       {"program":"[Block [...], If B [Br 1]] (br to the function label)","mode":"semantic-after","api":"any of the 9 paths"})
 
